@@ -569,27 +569,164 @@ E.Path.run_func = run_func
 
 
 # ---------------------------------------------------------------------------
-# cross-check samples: a satisfiability query over quantified table invariants can take the solver's whole budget
-# and is reporting-only; cap it (a sample without model is counted as not rebuilt)
+# satisfiability queries (vacuity covers, cross-check samples) over quantified table invariants: z3's model finder
+# often answers `unknown` although small models exist.  Such a query is retried *strengthened*: every key-set array
+# (Int -> Bool constant) is constrained to hold at most n explicit keys.  A model of the strengthened query is a model
+# of the original one, so `sat` stays sound; nothing is concluded from `unsat`/`unknown` of the strengthened query.
 # ---------------------------------------------------------------------------
 from . import solve as S  # noqa: E402
 
 _orig_discharge = S.discharge
+_DOM_SORT = z3.ArraySort(z3.IntSort(), z3.BoolSort())
+
+
+def _dom_consts(fs):
+    out, seen, stack = {}, set(), list(fs)
+    while stack:
+        t = stack.pop()
+        i = t.get_id()
+        if i in seen:
+            continue
+        seen.add(i)
+        if z3.is_quantifier(t):
+            stack.append(t.body())
+            continue
+        if z3.is_const(t) and t.decl().kind() == z3.Z3_OP_UNINTERPRETED and t.sort() == _DOM_SORT:
+            out[t.decl().name()] = t
+            continue
+        if z3.is_app(t):
+            stack.extend(t.children())
+    return list(out.values())
+
+
+def _finite_sat(ob, timeout_ms, seed):
+    doms = _dom_consts(ob.pc)
+    if not doms:
+        return None
+    for n in (1, 2, 3):
+        s = S._solver(min(int(timeout_ms), 5000), seed)
+        for p in ob.pc:
+            s.add(p)
+        for d in doms:
+            a = z3.K(z3.IntSort(), z3.BoolVal(False))
+            for i in range(n):
+                a = z3.Store(a, z3.Int(f'{d.decl().name()}!fk{i}'), z3.Bool(f'{d.decl().name()}!fb{i}'))
+            s.add(d == a)
+        if s.check() == z3.sat:
+            return s
+    return None
 
 
 def discharge(ob, timeout_ms=20000, seed=0, both=False):
-    if ob.kind == 'xcheck':
-        import time as _t
+    import time as _t
 
+    if ob.kind == 'xcheck':
+        t0 = _t.time()
+        s = S._solver(min(int(timeout_ms), 3000), seed)
+        for p in ob.pc:
+            s.add(p)
+        r = s.check()
+        if r != z3.sat:
+            s = _finite_sat(ob, 3000, seed)
+            if s is None:
+                return {'status': 'unknown', 'backend': 'z3', 'time': _t.time() - t0, 'detail': 'cross-check sample without model'}
+        return {'status': 'proved', 'backend': 'z3', 'time': _t.time() - t0, 'detail': 'cover sat', 'model': S.small_model(ob, s)}
+    if ob.expect_sat:
         t0 = _t.time()
         s = S._solver(min(int(timeout_ms), 3000), seed)
         for p in ob.pc:
             s.add(p)
         r = s.check()
         if r == z3.sat:
-            return {'status': 'proved', 'backend': 'z3', 'time': _t.time() - t0, 'detail': 'cover sat', 'model': S.small_model(ob, s)}
-        return {'status': 'unknown', 'backend': 'z3', 'time': _t.time() - t0, 'detail': 'cross-check sample without model'}
+            return {'status': 'proved', 'backend': 'z3', 'time': _t.time() - t0, 'detail': 'cover sat'}
+        if r == z3.unknown and _finite_sat(ob, timeout_ms, seed) is not None:
+            return {'status': 'proved', 'backend': 'z3', 'time': _t.time() - t0, 'detail': 'cover sat (finite tables)'}
     return _orig_discharge(ob, timeout_ms, seed, both)
 
 
 S.discharge = discharge
+
+
+# ---------------------------------------------------------------------------
+# ConcDictOf(T, n): a dict with the concrete keys 0..n-1 and n fresh values of type T
+# ---------------------------------------------------------------------------
+class ConcDictOf(C.ExtT):
+    def __init__(self, t, n):
+        self.t, self.n = t, n
+
+    def __repr__(self):
+        return f'ConcDictOf({self.t!r}, {self.n})'
+
+    def fresh(self, cfg, path, hint):
+        from .values import DObj
+
+        return path.alloc(DObj({i: cfg.fresh(path, self.t, f'{hint}[{i}]') for i in range(self.n)}))
+
+
+# ---------------------------------------------------------------------------
+# lazily chosen pre-state objects (OneOf fields) exist since entry: when the choice is made after a snapshot was
+# taken (first read through `old.` in a postcondition), the new objects are added to the snapshots as well
+# ---------------------------------------------------------------------------
+_orig_force = E.Path.force
+
+
+def force(self, lv):
+    if lv.lid in self.lazy:
+        return self.lazy[lv.lid]
+    before = set(self.heap)
+    v = _orig_force(self, lv)
+    new = [oid for oid in self.heap if oid not in before]
+    if new:
+        for snap in self.snapshots.values():
+            for oid in new:
+                if oid not in snap:
+                    snap[oid] = self.heap[oid].clone()
+    return v
+
+
+E.Path.force = force
+
+
+# ---------------------------------------------------------------------------
+# modifies clauses may name an element of a concrete-spine dict / list: 'self.sets[0].enabled'
+# ---------------------------------------------------------------------------
+class _SubscriptToAttr(ast.NodeTransformer):
+    """x[<const>]  ->  x.__item_<const>  (resolved by the patched attribute reader below)"""
+
+    def visit_Subscript(self, n):
+        self.generic_visit(n)
+        if isinstance(n.slice, ast.Constant) and isinstance(n.slice.value, int):
+            return ast.copy_location(ast.Attribute(n.value, f'__item_{n.slice.value}', ast.Load()), n)
+        return n
+
+
+_orig_loc = VG.Config._loc
+
+
+def _loc(self, path, node, env, out, star):
+    node2 = _SubscriptToAttr().visit(node)
+    ast.fix_missing_locations(node2)
+    return _orig_loc(self, _ItemView(path), node2, env, out, star)
+
+
+class _ItemView:
+    """path proxy for Config._loc: an object's pseudo-field __item_<i> is element i of a concrete-spine container"""
+
+    def __init__(self, path):
+        self._p = path
+
+    def __getattr__(self, n):
+        return getattr(self._p, n)
+
+    def obj(self, ref):
+        from .values import DObj, LObj
+
+        o = self._p.obj(ref)
+        if isinstance(o, DObj):
+            return Obj(None, {f'__item_{k}': v for k, v in o.items.items() if isinstance(k, int)}, None)
+        if isinstance(o, LObj) and o.items is not None:
+            return Obj(None, {f'__item_{i}': v for i, v in enumerate(o.items)}, None)
+        return o
+
+
+VG.Config._loc = _loc
